@@ -8,6 +8,7 @@ UNITS = [M("cond_wait", "h_cond_wait", "p_cond_variable_wait", canaries=2), M("c
          # the property relies on PMutex being an exact wrapper of the pthread mutex the condition variable releases and re-acquires
          M("mutex_lock", "h_mutex_lock", "p_mutex_lock", canaries=2), M("mutex_trylock", "h_mutex_trylock", "p_mutex_trylock", canaries=2),
          M("mutex_unlock", "h_mutex_unlock", "p_mutex_unlock", canaries=2),
+         M("mutex_new_free", "h_mutex_new_free", None, canaries=2, functions=["p_mutex_new", "p_mutex_free"]),   # ... and a plain (default-attribute, non-recursive) one
          M("lemma_mutex_handle_offset", "h_lemma_mutex_handle_offset", None, functions=[])]
 REQUIRE_CONFIGURED = ["pcondvariable-posix.c", "pmutex-posix.c"]
 TECHNIQUE = "CBMC function contracts (DFCC): p_cond_variable_* are exact, argument-faithful wrappers of pthread_cond_* (call-log refinement)"
